@@ -12,7 +12,7 @@ from vlib.common import *
 from checks.C15 import _absorb
 
 NEG_T = [("Guard_compressed", "BodyIntact"), ("NonAtomicFence", "BodyIntact"), ("No406Fallback", "GiveUpRule"),
-         ("FallbackKeepsIndex", "Fallback406"), ("RetryPermanent", "FailoverInOrder")]
+         ("FallbackKeepsIndex", "Fallback406"), ("RetryPermanent", "FailoverInOrder"), ("CompressUnasked", "ResponseEncodingOffered")]
 NEG_C = ["CompleteGT", "KeepCount", "FlushDrops"]
 
 
